@@ -45,8 +45,8 @@ MANIFEST = dict(
           "right-ascension difference is within the tolerance of zero. The model is tied to /repo by running its binary64 instantiation against the real code bit "
           "for bit (construction, value, derivative, root, minmax, conjunction helpers) and the predicates of every "
           "clause are evaluated on the implementation against an exact rational Lagrange oracle. Not carried by a "
-          "theorem: convergence of the Newton/false-position iteration (only 'returns within max_iter or raises'; the "
-          "implementation gives up on brackets with a flat stretch: listed finding), the "
+          "theorem: convergence of the Newton/false-position/bisection iteration to the tolerance (proved: the loop ends "
+          "within max_iter + 1 passes, and a fallback pass with an even count halves the bracket), the "
           "relative 1e-9 of the binary64 evaluation (checked on tables whose node spacing ratio is <= 20, see "
           "ASSUMPTIONS), planet_stars_in_line and minimum_angular_separation (trigonometric set-up; predicates only)."),
     note=("Trusted: Lean kernel, Mathlib, axioms propext/Classical.choice/Quot.sound; the hand-written model "
@@ -401,9 +401,9 @@ def p_minmax_found(inp):
 
 
 def known_match(finding, failure):
-    """findings.d/C12.json: root()/minmax() give up ('Too many iterations') on a bracket with a sign change when the
-    function is flat (|slope| < 1e-3) somewhere in the bracket: Newton is switched off there and the
-    false-position fallback keeps one end of the bracket for ever."""
+    """matcher for findings of the form {predicates, slope_below}: root()/minmax() giving up ('Too many
+    iterations') on a bracket with a sign change and a flat stretch.  (The finding of that form was repaired by the
+    fix: commit that makes the fallback bisect every other time; findings.d/C12.json lists nothing now.)"""
     if failure.get('predicate') not in finding.get('predicates', []):
         return False
     det = failure.get('detail')
